@@ -13,15 +13,22 @@
 //	       w,<i>,<off>,<val>   the guest stores byte val at ptr_i+off   (performed only if that
 //	       r,<i>,<off>         the guest loads the byte at ptr_i+off     address lies inside the
 //	                           requested size of a live allocation; otherwise "skip")
+//	       W,<i>,<off>,<len>,<seed>  the guest stores len bytes at ptr_i+off, byte j = (seed+31*j)&255
+//	       R,<i>,<off>,<len>         the guest loads len bytes at ptr_i+off
+//	                           (multi-byte accesses = the sequences of their byte accesses; each byte is
+//	                           performed iff it lies inside the requested size of a live allocation;
+//	                           when all of them do, the memory's Write / Read of the whole slice is used)
 //	       g,<n>               the guest grows the memory by n pages
 //	       S,<n>               the embedder swaps in a memory of min(n, maxPages) pages (may shrink)
 //
 // observed: one token per op: <res>,<pagesAfter>
 //
 //	res := p<ptr> | e:<class> | ok | v<byte> | skip
+//	       | W: one letter per byte, k = stored, s = skipped | R: two hex digits per byte, -- = skipped
 //
 // input `cst`: observed = NilMarker Aligment HeaderSize NumOrders MinPossibleAllocations
-// MaxPossibleAllocations PageSize MaxWasmPages (hex) — NilMarker is `math.MaxUint32`, which the
+// MaxPossibleAllocations PageSize MaxWasmPages, the raw occupied header of order 1 and the raw free
+// header with a Nil link as found in memory (hex) — NilMarker is `math.MaxUint32`, which the
 // constant translator (Gen.v) cannot read; the driver compares all of them with Model.v.
 //	class := poisoned shrunk toolarge hdrptr readhdr order occfree oos grow writehdr invalidptr
 //	         emptyhdr underflow other
@@ -169,9 +176,18 @@ func c28InLive(live []c28Live, a uint64) bool {
 
 func c28Run(in string) string {
 	if in == "cst" { // the constants of the package, compared by the driver with those of Model.v
-		return fmt.Sprintf("%x %x %x %x %x %x %x %x", uint64(allocator.NilMarker), uint64(allocator.Aligment), uint64(allocator.HeaderSize),
+		// ... and the two header encodings as they appear in memory (the occupied-bit mask is a literal
+		// inside readHeaderFromMemory / writeHeaderInto): an occupied header of order 1, then the same
+		// block freed as the only element of its list (link = Nil marker)
+		m := &c28Mem{pages: 1, max: 1, data: map[uint32]*[c28Chunk]byte{}}
+		h := allocator.NewFreeingBumpHeapAllocator(0)
+		p, _ := h.Allocate(m, 9)
+		occ, _ := m.ReadUint64Le(p - 8)
+		_ = h.Deallocate(m, p)
+		free, _ := m.ReadUint64Le(p - 8)
+		return fmt.Sprintf("%x %x %x %x %x %x %x %x %x %x", uint64(allocator.NilMarker), uint64(allocator.Aligment), uint64(allocator.HeaderSize),
 			uint64(allocator.NumOrders), uint64(allocator.MinPossibleAllocations), uint64(allocator.MaxPossibleAllocations),
-			uint64(allocator.PageSize), uint64(allocator.MaxWasmPages))
+			uint64(allocator.PageSize), uint64(allocator.MaxWasmPages), occ, free)
 	}
 	f := strings.Split(in, " ")
 	if len(f) < 4 || f[0] != "seq" {
@@ -244,6 +260,58 @@ func c28Run(in string) string {
 			} else {
 				res = "v" + vu.X(uint64(mem.get(addr)))
 			}
+		case "W", "R":
+			idx := int(vu.UnX(a[1]))
+			var base uint32
+			if idx < i {
+				base = ptrs[idx]
+			}
+			start := base + uint32(vu.UnX(a[2]))
+			n := int(vu.UnX(a[3]))
+			all := n > 0 && uint64(start)+uint64(n) <= 1<<32
+			for j := 0; j < n; j++ {
+				if !c28InLive(live, uint64(start+uint32(j))) {
+					all = false
+				}
+			}
+			var sb strings.Builder
+			if a[0] == "W" {
+				seed := int(vu.UnX(a[4]))
+				buf := make([]byte, n)
+				for j := range buf {
+					buf[j] = byte(seed + 31*j)
+				}
+				if all && mem.Write(start, buf) { // the whole slice through the memory's own multi-byte store
+					sb.WriteString(strings.Repeat("k", n))
+				} else {
+					for j := 0; j < n; j++ {
+						ad := uint64(start + uint32(j))
+						if c28InLive(live, ad) {
+							mem.put(ad, buf[j])
+							sb.WriteByte('k')
+						} else {
+							sb.WriteByte('s')
+						}
+					}
+				}
+			} else {
+				var whole []byte
+				if all {
+					whole, _ = mem.Read(start, uint64(n))
+				}
+				for j := 0; j < n; j++ {
+					ad := uint64(start + uint32(j))
+					switch {
+					case whole != nil:
+						sb.WriteString(fmt.Sprintf("%02x", whole[j]))
+					case c28InLive(live, ad):
+						sb.WriteString(fmt.Sprintf("%02x", mem.get(ad)))
+					default:
+						sb.WriteString("--")
+					}
+				}
+			}
+			res = sb.String()
 		case "g":
 			if _, ok := mem.Grow(uint32(vu.UnX(a[1]))); ok {
 				res = "ok"
@@ -338,6 +406,10 @@ func c28Ops(r *vu.RNG, n int, allocBias int) []string {
 			ops = append(ops, fmt.Sprintf("r,%x,%x", allocs[r.Intn(len(allocs))], off))
 		case c < allocBias+62:
 			ops = append(ops, "g,"+vu.X(uint64(r.Intn(3))))
+		case c < allocBias+66: // multi-byte store: inside, across the end of, or before an allocation
+			ops = append(ops, fmt.Sprintf("W,%x,%s,%x,%x", allocs[r.Intn(len(allocs))], vu.X(uint64(r.Intn(40))), 1+r.Intn(48), r.Intn(256)))
+		case c < allocBias+70:
+			ops = append(ops, fmt.Sprintf("R,%x,%s,%x", allocs[r.Intn(len(allocs))], vu.X(uint64(r.Intn(40))), 1+r.Intn(64)))
 		default:
 			ops = append(ops, "a,"+vu.X(uint64(c28Size(r))))
 			allocs = append(allocs, i)
@@ -382,6 +454,8 @@ func c28Gen(r *vu.RNG, n int, emit func(string)) {
 	seq(0, 0, 2, []string{"a,8", "a,10000", "a,10000"})
 	seq(0, 1, 65536, []string{"a,8", "S,0", "a,8", "a,8"})
 	seq(0, 2, 65536, []string{"a,8", "S,1", "f,0,0"})
+	// multi-byte stores over the whole requested size, read back whole after other allocations and frees
+	seq(0, 1, 65536, []string{"a,21", "a,7", "a,c8", "W,0,0,21,11", "W,1,0,7,80", "W,2,0,c8,f3", "f,1,0", "a,5", "a,40", "f,4,0", "R,0,0,21", "R,2,0,c8", "R,3,0,8", "W,2,c0,10,1", "R,2,b8,18"})
 	// the size seen by the LAST call counts (Deallocate records it too): grown by the guest, seen by a
 	// free resp. an allocation, then a smaller memory object
 	seq(0, 1, 65536, []string{"a,8", "g,1", "f,0,0", "S,1", "a,8"})
@@ -409,7 +483,7 @@ func c28Gen(r *vu.RNG, n int, emit func(string)) {
 	seq(0x80000000, 32768, 65537, []string{"a,8", "a,10", "g,1"})
 
 	for i := 0; i < n; i++ {
-		mode := r.Intn(24)
+		mode := r.Intn(25)
 		switch {
 		case mode < 12: // ordinary mixed sequences
 			pages := uint32(r.Intn(4))
@@ -500,6 +574,37 @@ func c28Gen(r *vu.RNG, n int, emit func(string)) {
 			}
 			ops = append(ops, c28Ops(r, 3+r.Intn(5), 50)...)
 			seq(uint32(r.Intn(3))*8, uint32(1+r.Intn(2)), []uint32{1, 2, 16, 65536}[r.Intn(4)], ops)
+		case mode < 23 && mode >= 22: // every allocation filled over its whole requested size, churn, then read back whole
+			k := 3 + r.Intn(4)
+			var ops []string
+			sizes := make([]int, k)
+			for j := 0; j < k; j++ {
+				sizes[j] = 1 + r.Intn(120)
+				if r.Chance(1, 5) {
+					sizes[j] = 1 + r.Intn(300)
+				}
+				ops = append(ops, "a,"+vu.X(uint64(sizes[j])))
+			}
+			for j := 0; j < k; j++ {
+				ops = append(ops, fmt.Sprintf("W,%x,0,%x,%x", j, sizes[j], r.Intn(256)))
+			}
+			freed := map[int]bool{}
+			for j := 0; j < 2+r.Intn(4); j++ {
+				switch r.Intn(3) {
+				case 0:
+					v := r.Intn(k)
+					if !freed[v] && len(freed) < k-2 {
+						freed[v] = true
+						ops = append(ops, fmt.Sprintf("f,%x,0", v))
+					}
+				default:
+					ops = append(ops, "a,"+vu.X(uint64(1+r.Intn(200))))
+				}
+			}
+			for j := 0; j < k; j++ {
+				ops = append(ops, fmt.Sprintf("R,%x,0,%x", j, sizes[j]))
+			}
+			seq(c28HeapBase(r), 1, 65536, ops)
 		case mode < 22: // exact tiling of the first page(s), reuse of the block that ends at the end of memory
 			hb := uint32(r.Intn(4)) * 8
 			ops := c28ExactFit(hb)
